@@ -85,6 +85,14 @@ def run_pubsub(ctx, relevant, line_oracle=None, sat_share=1):
                         label="pubsub.slice", line_oracle=line_oracle)
     core.diff_component(ctx, "pubsub", ["gen", "--seed", ctx.seed + 19, "--cases", 150 if quick else 3000, "--len", 60 if quick else 100, "slice", "ipc"], cl,
                         label="pubsub.slice-ipc", line_oracle=line_oracle)
+    # flatbuffer payloads (Flatbuffer<UnboundedData>, dynamic data segment, PowerOfTwo strategy, initial reserved memory = a sample with one
+    # entry): `loanf p l n` builds a title and n entries inside the loan, the builder outgrows the chunk and the loan is relocated into a new
+    # segment (Sender::grow) while other samples are loaned / in flight / held; the same model — a relocating grow is invisible in it.
+    # Publishers are not dropped (as in slice mode); a loan that is overtaken by the send of a later loan of its publisher does not grow
+    core.diff_component(ctx, "pubsub", ["gen", "--seed", ctx.seed + 29, "--cases", 600 if quick else 10000, "--len", 60 if quick else 100, "fb"], cl,
+                        label="pubsub.flatbuffer", line_oracle=line_oracle)
+    core.diff_component(ctx, "pubsub", ["gen", "--seed", ctx.seed + 31, "--cases", 100 if quick else 2000, "--len", 60 if quick else 100, "fb", "ipc"], cl,
+                        label="pubsub.flatbuffer-ipc", line_oracle=line_oracle)
 
 
 RULE = ("real Publisher / Subscriber ports of a publish-subscribe service driven through the public API, one call per line: create/drop publisher (max loans 0..3) and subscriber "
@@ -92,11 +100,16 @@ RULE = ("real Publisher / Subscriber ports of a publish-subscribe service driven
         "loan-to-exhaustion probe; services with max publishers/subscribers 0..3, buffer 0..3, history 0..3, max borrowed 0..3, safe overflow on/off, expired-connection buffer 1..3, "
         "discard strategy; local and ipc variants. exhaustive: every sequence of 3 (quick) / 5 (thorough) calls from a 12-call alphabet after a fixed prefix, for 4 small "
         "configurations; random: mostly-valid histories; saturation: histories that keep buffers, borrows, history and loans full. Every result (values, recipients counts, "
-        "error kinds) compared with the L1 model; harness oracles independent of the model: canary re-read of every held sample after every call, per-subscriber borrow count. "
+        "error kinds) compared with the L1 model; flatbuffer: the same histories with Flatbuffer<UnboundedData> payloads built inside the loan (title + 1..64 entries "
+        "that all carry the tag), so that the loan outgrows its chunk and is relocated into a new data segment (Sender::grow) while other samples are loaned, in flight or held; "
+        "a received flatbuffer must verify and all entries must carry the sent tag (else `corrupt`). Harness oracles independent of the model: canary re-read of every held sample after every call, per-subscriber borrow count. "
         "distinct = distinct output vectors of cases with > 2 ops")
 
 ASSUME = ["every API call is one atomic step of the L1 model: concurrency between ports is covered below this level by the queue / index-set / connection theorems (C03, C09, C13), not here",
           "payloads: fixed-size u64, and [u64] slices on a dynamically growing data segment (segment ids are not part of the model: observable results are the same); in slice mode publishers "
           "are not dropped while their samples are in flight (a vanished publisher's not-yet-mapped segments are lost: documented limitation of dynamic segments, outside the model)",
+          "flatbuffer payloads: the whole content is built inside the `loanf` call (a loan only grows while its chunk lies in the newest segment of its publisher), a loan that is overtaken "
+          "by the send of a later loan of the same publisher does not grow, and no table field carries its default value: outside these restrictions the implementation misbehaves "
+          "(findings, see the comment at `FbLoan` in harness/src/c01_pubsub.rs: grow of a loan from an older segment, chunk size of a grown sample, non-zeroed builder memory); publishers are not dropped (as in slice mode)",
           "backpressure strategy DiscardData; the blocking strategies spin on the same try_send (retry loop not modelled)",
           "request-response uses the same Sender/Receiver machinery (port/details); it is exercised by the C11 check"]
